@@ -23,17 +23,18 @@ func runC16(c *Ctx) {
 	var calls []*Call
 	id := 0
 	groups := [][]*Call{}
-	addGroup := func(b []byte, rs readScript, note string) {
+	addGroupAPI := func(api string, b []byte, rs readScript, note string) {
 		var grp []*Call
 		for o := 0; o < 8; o++ {
 			id++
-			cl := p.runCall(id, "decode", b, rs, CallOpts{UF: o & 1, UM: (o >> 1) & 1, Log: (o >> 2) & 1}, true)
+			cl := p.runCall(id, api, b, rs, CallOpts{UF: o & 1, UM: (o >> 1) & 1, Log: (o >> 2) & 1}, true)
 			cl.Note = note
 			grp = append(grp, cl)
 		}
 		groups = append(groups, grp)
 		calls = append(calls, grp...)
 	}
+	addGroup := func(b []byte, rs readScript, note string) { addGroupAPI("decode", b, rs, note) }
 	for i := 0; i < n; i++ {
 		s := g.Generate()
 		b := s.Bytes()
@@ -71,6 +72,18 @@ func runC16(c *Ctx) {
 				s.Data(2, []byte{70, 1})
 			}
 			addGroup(s.Bytes(), plain, fmt.Sprintf("file type %d, file_id with unlisted fields", ft))
+		}
+	}
+	// chains: the options hold for every file of the chain, not only the first
+	for i := 0; i < c.pick(8, 60); i++ {
+		var all []byte
+		for k := 0; k < 2+i%2; k++ {
+			all = append(all, g.Generate().Bytes()...)
+		}
+		addGroupAPI("chained", all, plain, "chain of generated files")
+		if i%3 == 0 {
+			cut := len(all)/2 + rng.Intn(len(all)/2)
+			addGroupAPI("chained", all, readScript{cut: cut, fault: -1}, fmt.Sprintf("chain cut at %d", cut))
 		}
 	}
 	// device files with unknown items, all 8 option sets
@@ -116,10 +129,11 @@ func runC16(c *Ctx) {
 func optionIndependentPart(cl *Call) string {
 	type part struct {
 		Err, Consumed int
+		ErrText       string // "never changes ... the error": the same failure reads the same under every option set
 		Panic         int
 		Files         []FileProj
 	}
-	pt := part{Err: cl.Ret.Err, Consumed: cl.Ret.Consumed, Panic: cl.Ret.Panic}
+	pt := part{Err: cl.Ret.Err, ErrText: cl.Ret.ErrText, Consumed: cl.Ret.Consumed, Panic: cl.Ret.Panic}
 	for _, f := range cl.Ret.Files {
 		x := *f
 		x.UnkM, x.UnkF, x.HasUnkM, x.HasUnkF = nil, nil, 0, 0
